@@ -110,8 +110,19 @@ def r2_release(ctx, acq):
                 gets.append(st)
         ok = False
         why = 'no `slot = ... self._slots.get() ...` assignment found'
-        if gets and isinstance(gets[0].targets[0], ast.Name):
-            var = gets[0].targets[0].id
+        # the token is what is yielded; it must come (through locals) from self._slots.get()
+        ylds = [y for y in ast.walk(a.node) if isinstance(y, ast.Yield) and isinstance(y.value, ast.Name)]
+
+        def _from_slots(e, depth=0):
+            if depth > 4:
+                return False
+            if any(isinstance(x, ast.Attribute) and x.attr == '_slots' for x in ast.walk(e)):
+                return True
+            return any(_from_slots(d, depth + 1) for x in ast.walk(e) if isinstance(x, ast.Name) for d in [deref(a.node, x)] if d is not x)
+
+        tokens = [y.value.id for y in ylds if _from_slots(deref(a.node, y.value))]
+        if gets and tokens:
+            var = tokens[0]
             why = 'the yield is not inside try/finally that puts the token back'
             for t in walk_local(a.node):
                 if isinstance(t, ast.Try) and t.finalbody and any(isinstance(y, ast.Yield) for s in t.body for y in ast.walk(s)):
